@@ -1,10 +1,10 @@
 #!/bin/sh
-# Build the framework from files on disk only (offline): Lean models + proofs + driver, Rust harness.
+# Build the framework from files on disk only (offline): Lean models + proofs + drivers, Rust harness.
+# Only what the claimed properties need is built, so work in progress on others cannot break setup.
 set -e
 cd "$(dirname "$0")"
 export CARGO_NET_OFFLINE=true
 python3 tools/extract_consts.py
-(cd lean && lake build)
-cp /repo/Cargo.lock harness/Cargo.lock 2>/dev/null || true
-(cd harness && cargo build --offline)
+(cd lean && lake build $(python3 ../tools/setup_targets.py lake))
+(cd harness && cargo build --offline $(python3 ../tools/setup_targets.py cargo))
 echo "setup ok"
